@@ -629,6 +629,16 @@ class _SetOperation(Selectable, Term):  # type:ignore[misc]
         # Default to the context of the base query's dialect class
         return self.get_sql(self.base_query.QUERY_CLS.SQL_CONTEXT)
 
+    def get_parameterized_sql(self, ctx: SqlContext | None = None) -> tuple[str, list]:
+        """
+        Returns a tuple containing the query string and a list of parameters
+        """
+        if not ctx:
+            ctx = self.base_query.QUERY_CLS.SQL_CONTEXT
+        if not ctx.parameterizer:
+            ctx = ctx.copy(parameterizer=Parameterizer())
+        return self.get_sql(ctx), ctx.parameterizer.values  # type:ignore[union-attr]
+
     # Used as a source (FROM / JOIN) a set operation is compared with the statement's other sources. Like a QueryBuilder it
     # is identified by its alias; Term.__eq__ would build a criterion, which is always truthy.
     def __eq__(self, other: Any) -> bool:  # type:ignore[override]
